@@ -7,15 +7,19 @@
     globalcache-0.2.4 sync::SyncCache::get: Vacant -> InProcess -> compute -> Computed + notify_all,
     Occupied(Computed) -> clone, Occupied(InProcess) -> condvar wait).
 
-      frame (r, AtEnter)     at "enter"  : next = lock chain; contains? push            (file.rs get, first block)
-      frame (r, AtPushed)    at "pushed" : next = cache.get_or_compute begin             (SyncCache::get entry match)
-      frame (r, InCall fb k) inside compute() (fb = false) or inside the uncached re-load after a cached
-                             error was found (fb = true), waiting for the nested get above it
-      frame (r, AtHit o)     at "cached" : the cache held Computed o (this call did not compute it); an error
-                             found this way is not served: resolve + from_primitive run again, uncached
-      frame (r, AtPublish o) at "publish": next = store Computed, notify_all
-      frame (r, AtCached o)  at "cached" : next = match res / downcast (thread-local)
-      frame (r, AtLeave o)   at "leave"  : next = Defer: lock chain; pop; assert_eq      (file.rs get, drop guard)
+    A frame (r, ty, pc) is one open call get::<ty>(r):
+      (r, ty, AtEnter)     at "enter"  : next = lock chain; contains? push            (file.rs get, first block)
+      (r, ty, AtPushed)    at "pushed" : next = cache.get_or_compute begin             (SyncCache::get entry match)
+      (r, ty, InCall fb k) inside compute() (fb = false) or inside the uncached re-load (fb = true: a cached
+                           error, or a value cached as another type, was found), waiting for the nested get above it
+      (r, ty, AtHit ty' o) at "cached" : the cache held Computed ty' o (this call did not compute it: the entry was
+                           there, or another thread published it while this one waited).  Served only when it is a
+                           value of the requested type (AnySync::downcast, any.rs); an error found this way — of
+                           whatever kind — and a value of another type are not served: resolve + from_primitive run
+                           again, uncached (file.rs get: `Err(e) if computed`, `Err(_)`, `any.downcast() Err(_)`)
+      (r, ty, AtPublish o) at "publish": next = store Computed ty o, notify_all
+      (r, ty, AtCached o)  at "cached" : next = match res / downcast (thread-local; own value: downcast succeeds)
+      (r, ty, AtLeave o)   at "leave"  : next = Defer: lock chain; pop; assert_eq      (file.rs get, drop guard)
 
     [per_thread c = false] is the code before the fix (one guard stack per resolver shared by all threads),
     [true] the fixed code (guard entries keyed by ThreadId).  Outside the model: OS scheduling, lock fairness,
@@ -26,16 +30,19 @@ Definition tid := nat.
 
 Inductive pc :=
 | AtEnter | AtPushed | InCall (fb : bool) (k : outcome -> comp)
-| AtPublish (o : outcome) | AtCached (o : outcome) | AtHit (o : outcome) | AtLeave (o : outcome).
-Definition frame := (ref * pc)%type.
+| AtPublish (o : outcome) | AtCached (o : outcome) | AtHit (ty' : tytag) (o : outcome) | AtLeave (o : outcome).
+Definition frame := (ref * tytag * pc)%type.
+Definition fref (f : frame) : ref := fst (fst f).
+Definition tcall := (tytag * ref)%type.       (* one top-level call get::<ty>(r) *)
 
 Record thread := mkThread {
   stack : list frame;        (* open gets of the current top-level call, innermost first *)
-  todo : list ref;           (* top-level calls still to make *)
+  todo : list tcall;         (* top-level calls still to make *)
   results : list outcome     (* answers of the finished top-level calls ([Panic 1] = the call panicked) *)
 }.
 
-Inductive centry := InProcess | Computed (o : outcome).
+(* Result<AnySync, Arc<PdfError>>: a stored value carries the TypeId it was loaded as *)
+Inductive centry := InProcess | Computed (ty : tytag) (o : outcome).
 
 Record ccfg := mkCcfg {
   shared_res : bool;     (* all threads use one StorageResolver / one each *)
@@ -56,7 +63,7 @@ Definition updN {A} (f : N -> A) (k : N) (x : A) : N -> A := fun k' => if k' =? 
 
 Section Conc.
   Variable c : ccfg.
-  Variable prog : ref -> comp.     (* resolve + from_primitive of the single type used by the readers *)
+  Variable prog : tytag -> ref -> comp.     (* resolve + T::from_primitive, as in Cache/Model.v *)
 
   Definition res_of (t : tid) : N := if shared_res c then 0 else N.of_nat t + 1.
   Definition tkey (t : tid) : N := if per_thread c then N.of_nat t + 1 else 0.
@@ -75,23 +82,23 @@ Section Conc.
   (* the harness thread body: for r in todo { catch_unwind(get(r)) } *)
   Definition next_call (th : thread) : thread :=
     match stack th, todo th with
-    | [], r :: rest => mkThread [(r, AtEnter)] rest (results th)
+    | [], (ty, r) :: rest => mkThread [(r, ty, AtEnter)] rest (results th)
     | _, _ => th
     end.
 
   (* run the computation p of frame r up to its next yield point; fb: p is the uncached re-load of get's
      Err arm (its result is returned as it is: next yield point "leave") *)
-  Definition advance (fb : bool) (r : ref) (p : comp) (rest : list frame) : list frame :=
+  Definition advance (fb : bool) (r : ref) (ty : tytag) (p : comp) (rest : list frame) : list frame :=
     match p with
-    | Ret o => (r, if fb then AtLeave o else if cache_on c then AtPublish o else AtCached o) :: rest
-    | Call _ r' k => (r', AtEnter) :: (r, InCall fb k) :: rest
+    | Ret o => (r, ty, if fb then AtLeave o else if cache_on c then AtPublish o else AtCached o) :: rest
+    | Call ty' r' k => (r', ty', AtEnter) :: (r, ty, InCall fb k) :: rest
     end.
 
   (* the innermost get returned o: its caller continues up to its next yield point *)
   Definition return_to (th : thread) (rest : list frame) (o : outcome) : thread :=
     match rest with
     | [] => next_call (mkThread [] (todo th) (results th ++ [o]))
-    | (r, InCall fb k) :: rest' => mkThread (advance fb r (k o) rest') (todo th) (results th)
+    | (r, ty, InCall fb k) :: rest' => mkThread (advance fb r ty (k o) rest') (todo th) (results th)
     | _ :: _ => th      (* unreachable: frames below the top are InCall *)
     end.
 
@@ -110,12 +117,14 @@ Section Conc.
     | x :: t => match split_last t with Some (l', y) => Some (x :: l', y) | None => None end
     end.
 
-  Definition step (g : gstate) (t : tid) : gstate :=
+  (* [serve e]: is an error of kind e found in the cache (computed = false) returned as it is?  The code: never
+     ([step]); the parameter exists to refute the whole class of variants (Cache/ConcProofs.v) *)
+  Definition step_gen (serve : N -> bool) (g : gstate) (t : tid) : gstate :=
     if aborted g then g else
     let th := threads g t in
     match stack th with
     | [] => g
-    | (r, p) :: rest =>
+    | (r, ty, p) :: rest =>
       let rs := res_of t in
       let tk := tkey t in
       match p with
@@ -124,24 +133,29 @@ Section Conc.
           else if memN r (chains g rs tk) then                          (* bail!("Recursive reference") *)
             set_thread g t (return_to th rest (Err E_OTHER))
           else set_thread (set_chain g rs tk (chains g rs tk ++ [r])) t
-                          (mkThread ((r, AtPushed) :: rest) (todo th) (results th))
+                          (mkThread ((r, ty, AtPushed) :: rest) (todo th) (results th))
       | AtPushed =>
           if cache_on c then
             match cache g r with
             | None => set_thread (set_cache g r InProcess) t            (* Entry::Vacant *)
-                                 (mkThread (advance false r (prog r) rest) (todo th) (results th))
-            | Some (Computed o) => set_thread g t (mkThread ((r, AtHit o) :: rest) (todo th) (results th))
+                                 (mkThread (advance false r ty (prog ty r) rest) (todo th) (results th))
+            | Some (Computed ty' o) => set_thread g t (mkThread ((r, ty, AtHit ty' o) :: rest) (todo th) (results th))
             | Some InProcess => g                                       (* condvar.wait: not enabled *)
             end
-          else set_thread g t (mkThread (advance false r (prog r) rest) (todo th) (results th))
+          else set_thread g t (mkThread (advance false r ty (prog ty r) rest) (todo th) (results th))
       | InCall _ _ => g
-      | AtPublish o => set_thread (set_cache g r (Computed o)) t
-                                  (mkThread ((r, AtCached o) :: rest) (todo th) (results th))
-      | AtCached o => set_thread g t (mkThread ((r, AtLeave o) :: rest) (todo th) (results th))
-      | AtHit o =>                                                      (* match res: Ok(any) / Err(_) not computed here *)
+      | AtPublish o => set_thread (set_cache g r (Computed ty o)) t
+                                  (mkThread ((r, ty, AtCached o) :: rest) (todo th) (results th))
+      | AtCached o => set_thread g t (mkThread ((r, ty, AtLeave o) :: rest) (todo th) (results th))
+      | AtHit ty' o =>                                                  (* match res, computed = false *)
           match o with
-          | Err _ => set_thread g t (mkThread (advance true r (prog r) rest) (todo th) (results th))
-          | _ => set_thread g t (mkThread ((r, AtLeave o) :: rest) (todo th) (results th))
+          | Ok v => if ty' =? ty                                        (* any.downcast() *)
+                    then set_thread g t (mkThread ((r, ty, AtLeave (Ok v)) :: rest) (todo th) (results th))
+                    else set_thread g t (mkThread (advance true r ty (prog ty r) rest) (todo th) (results th))
+          | Err e => if serve e                                         (* Err(e) if computed => …; Err(_) => load again *)
+                     then set_thread g t (mkThread ((r, ty, AtLeave (Err e)) :: rest) (todo th) (results th))
+                     else set_thread g t (mkThread (advance true r ty (prog ty r) rest) (todo th) (results th))
+          | _ => set_thread g t (mkThread (advance true r ty (prog ty r) rest) (todo th) (results th))
           end
       | AtLeave o =>                                                    (* Defer: lock, pop, assert_eq *)
           if poisoned g rs then panic_here g t th rest
@@ -154,28 +168,30 @@ Section Conc.
       end
     end.
 
+  Definition step : gstate -> tid -> gstate := step_gen (fun _ => false).
+
   Definition enabled (g : gstate) (t : tid) : bool :=
     negb (aborted g) &&
     match stack (threads g t) with
     | [] => false
-    | (r, AtPushed) :: _ =>
+    | (r, _, AtPushed) :: _ =>
         if cache_on c then match cache g r with Some InProcess => false | _ => true end else true
-    | (_, InCall _ _) :: _ => false
+    | (_, _, InCall _ _) :: _ => false
     | _ => true
     end.
 
   Definition finished (g : gstate) (t : tid) : bool :=
     match stack (threads g t) with [] => true | _ => false end.
 
-  Definition init_thread (calls : list ref) : thread := next_call (mkThread [] calls []).
+  Definition init_thread (calls : list tcall) : thread := next_call (mkThread [] calls []).
 
-  Fixpoint init_threads (progs : list (list ref)) (t : tid) : tid -> thread :=
+  Fixpoint init_threads (progs : list (list tcall)) (t : tid) : tid -> thread :=
     match progs with
     | [] => fun _ => mkThread [] [] []
     | p :: ps => upd (init_threads ps (S t)) t (init_thread p)
     end.
 
-  Definition ginit (progs : list (list ref)) : gstate :=
+  Definition ginit (progs : list (list tcall)) : gstate :=
     mkG (fun _ _ => []) (fun _ => false) (fun _ => None) (init_threads progs O) false.
 
   (* a schedule names, step by step, the thread that is released; naming a thread that is not enabled is a no-op *)
